@@ -40,6 +40,9 @@ Clauses(e) ==
       \* the request executed for action number i is the one formed from the entry DECLARED under key i (the mask describes
       \* that entry)
       ExecutedIsDeclaredEntry |-> e.ev = "Req" => e.declared,
+      \* the power conjunct of the documented preconditions, read from the node itself (no validator): an action on a node
+      \* needs the node ON - start-up needs it OFF; the mask never allows, and the simulator never performs, anything else
+      DocumentedPowerRule |-> e.ev = "Req" => (((e.mask = "allow") \/ (e.exec /\ e.status = "success")) => e.pwok),
       MaskExact          |-> (e.ev = "Req" /\ e.mask # "na") => (e.mask = "allow" <=> MaskAllows(e.path) /\ e.leaf),
       MaskedNeverSucceeds |-> (e.ev = "Req" /\ e.exec /\ e.mask = "deny") => e.status # "success"
     ]
